@@ -48,6 +48,8 @@ def run(rep, F, ctx):
     setters.chain(rep, F, cg, engine.load_table('chains.json'), ctors=A.closure_free_constructors())
     setters.setter(rep, F, cg, engine.load_table('setters.json'))
     setters.traversal_setup(rep, F, cg)
+    setters.mode_selection(rep, F, cg)
+    setters.copy_parent_mode(rep, F, cg)
 
     rep.rule('OPTS-DEFAULT', 'chmod_b / chown_b / copy_b of the two backends build the same default option struct: every constant field has the same value and the '
              'path field is an abs() result (chmod/chown) or the unresolved argument (copy) on both')
